@@ -150,7 +150,8 @@ Section KeptForms.
     exists s2,
       fk_step cfg s b = (s2, new_evs r0 b [] [b] ++ late_evs b r0 (if f_irr (c_filter cfg) then [b] else []) [], ROk) /\
       db s2 = new_db (db s) b /\ last_sent s2 = Some b /\ last_lib_seen s2 = r0 /\
-      Fin = [] /\ S = [] /\ libref (db s) = r0 /\ last_sent s = None /\ Inv s2 [b] [b] /\ Ext s2 [b].
+      Fin = [] /\ S = [] /\ libref (db s) = r0 /\ last_sent s = None /\ find (bid b) (store (db s)) = None /\
+      Inv s2 [b] [b] /\ Ext s2 [b].
   Proof.
     intros HI HX Hb Hd Hinc0. pose proof HI as [Hdb Hfin Hflast Hh]. pose proof Hinc0 as Hinc.
     unfold MovingLibInv.incl_first in Hinc. apply andb_true_iff in Hinc as [Hinc Hid]. apply andb_true_iff in Hinc as [Hci Hls].
@@ -187,7 +188,7 @@ Section KeptForms.
     { unfold new_evs, late_evs, ev. rewrite Hcur1. cbn [seg_ref tiny sid snum].
       fold (bref b). destruct (f_irr (c_filter cfg)); reflexivity. }
     split; [exact Hdbs2|]. split; [exact Hlast2|]. split; [exact Hl2|].
-    split; [reflexivity|]. split; [reflexivity|]. split; [reflexivity|]. split; [reflexivity|].
+    split; [reflexivity|]. split; [reflexivity|]. split; [reflexivity|]. split; [reflexivity|]. split; [exact Hf|].
     split.
     { constructor; rewrite ?Hdbs2; cbn [new_db libref store app].
       - exact Hdb1.
@@ -351,3 +352,268 @@ Section KeptForms.
       split; [exact Hex3|]. split; [exact Hlr3|]. split; [exact Hls3 | exact Hlls3].
   Qed.
 End KeptForms.
+
+(* ---------------------------------------------------------------- stores that are filters of one unpurged store *)
+
+Definition fil (f : block -> bool) (l : list entry) : list entry := filter (fun e => f (eb e)) l.
+
+Lemma fil_snoc f l en : f (eb en) = true -> fil f (l ++ [en]) = fil f l ++ [en].
+Proof. intros H. unfold fil. rewrite filter_app. cbn [filter]. rewrite H. reflexivity. Qed.
+
+Lemma filter_fil (p : entry -> bool) f l : filter p (fil f l) = filter (fun e => f (eb e) && p e) l.
+Proof.
+  unfold fil. induction l as [|e l IH]; cbn [filter]; [reflexivity|].
+  destruct (f (eb e)); cbn [filter andb]; [destruct (p e); rewrite IH; reflexivity | exact IH].
+Qed.
+
+Lemma filter_sub (p q : entry -> bool) l : (forall e, In e l -> p e = true -> q e = true) ->
+  filter p (filter q l) = filter p l.
+Proof.
+  induction l as [|e l IH]; intros H; cbn [filter]; [reflexivity|].
+  destruct (q e) eqn:Q; cbn [filter].
+  - destruct (p e); rewrite IH; auto; intros e0 He0; apply H; right; exact He0.
+  - destruct (p e) eqn:P; [rewrite (H e (or_introl eq_refl) P) in Q; discriminate|].
+    apply IH. intros e0 He0. apply H. right. exact He0.
+Qed.
+
+Lemma set_sent_absent id : forall l, ~ In id (keys l) -> set_sent id l = l.
+Proof.
+  induction l as [|e l IH]; intros H; cbn [set_sent]; [reflexivity|].
+  destruct (N.eqb_spec (bid (eb e)) id) as [E|E]; [exfalso; apply H; left; exact E|].
+  rewrite IH; [reflexivity|]. intros Hin. apply H. right. exact Hin.
+Qed.
+
+Lemma set_sent_fil f id : forall l, NoDup (keys l) -> set_sent id (fil f l) = fil f (set_sent id l).
+Proof.
+  induction l as [|e l IH]; intros Hnd; [reflexivity|].
+  cbn [keys map] in Hnd. fold (keys l) in Hnd. inversion Hnd as [|? ? Hx Hnd']; subst.
+  unfold fil in *. cbn [set_sent filter].
+  destruct (N.eqb_spec (bid (eb e)) id) as [E|E].
+  - cbn [filter eb]. destruct (f (eb e)) eqn:F.
+    + cbn [set_sent]. rewrite E, N.eqb_refl. reflexivity.
+    + apply set_sent_absent. intros Hin. apply in_filter_keys in Hin. apply Hx. unfold key. rewrite E. exact Hin.
+  - cbn [filter]. destruct (f (eb e)) eqn:F.
+    + cbn [set_sent]. destruct (N.eqb_spec (bid (eb e)) id); [contradiction|]. rewrite IH by exact Hnd'. reflexivity.
+    + apply IH. exact Hnd'.
+Qed.
+
+Lemma mark_all_fil f : forall segs l, NoDup (keys l) -> mark_all (fil f l) segs = fil f (mark_all l segs).
+Proof.
+  induction segs as [|sg segs IH]; intros l Hnd; [reflexivity|]. unfold mark_all in *. cbn [fold_left].
+  rewrite set_sent_fil by exact Hnd. apply IH. rewrite set_sent_keys. exact Hnd.
+Qed.
+
+Lemma chain_transfer l1 l2 : forall x y p, chain l1 x y p ->
+  (forall id e, In e p -> find id l1 = Some e -> find id l2 = Some e) -> chain l2 x y p.
+Proof.
+  intros x y p Hc. induction Hc as [x|x y e p Hne Hf Hc IH]; intros H; [constructor|].
+  apply (chain_cons l2 x y e p); [exact Hne | apply H; [apply in_or_app; right; left; reflexivity | exact Hf]|].
+  apply IH. intros id e0 He0. apply H. apply in_or_app. left. exact He0.
+Qed.
+
+Lemma nodup_split_unique {A} : forall (A1 A2 B1 B2 : list A) a,
+  NoDup (A1 ++ a :: B1) -> A1 ++ a :: B1 = A2 ++ a :: B2 -> A1 = A2 /\ B1 = B2.
+Proof.
+  induction A1 as [|x A1 IH]; intros A2 B1 B2 a Hnd E.
+  - destruct A2 as [|y A2]; cbn [app] in *; [injection E as E; auto|].
+    injection E as E1 E2. exfalso. apply NoDup_cons_iff in Hnd as [Hx _]. apply Hx. rewrite E2. apply in_or_app. right. left. reflexivity.
+  - destruct A2 as [|y A2]; cbn [app] in *.
+    + injection E as E1 E2. exfalso. apply NoDup_cons_iff in Hnd as [Hx _]. apply Hx. rewrite E1. apply in_or_app. right. left. reflexivity.
+    + injection E as E1 E2. apply NoDup_cons_iff in Hnd as [_ Hnd'].
+      destruct (IH A2 B1 B2 a Hnd' E2) as [-> ->]. subst y. auto.
+Qed.
+
+(* ---------------------------------------------------------------- two retention settings side by side *)
+
+Section Kept.
+  Variable U : list block.
+  Variable r0 : ref.
+  Variable cfg : config.
+  Variable k : N.
+
+  Hypothesis Hnofail : c_fail_at cfg = None.
+  Hypothesis Hnew : f_new (c_filter cfg) = true.
+  Hypothesis Hundo : f_undo (c_filter cfg) = true.
+
+  Hypothesis U_id : forall b, In b U -> bid b <> 0 /\ bparent b <> 0 /\ bid b <> bparent b.
+  Hypothesis U_uniq : forall x y, In x U -> In y U -> bid x = bid y -> x = y.
+  Hypothesis U_up : forall x y, In x U -> In y U -> bparent x = bid y -> bnum y < bnum x.
+  Hypothesis L_id : ri r0 <> 0.
+  Hypothesis L_num : forall y, In y U -> bid y = ri r0 -> bnum y = rn r0.
+  Hypothesis L_up : forall x, In x U -> bparent x = ri r0 -> rn r0 < bnum x.
+  Hypothesis L_decl : forall b, In b U -> decl_ok U r0 b.
+
+  Notation cfg' := (with_kept cfg k).
+  Notation first := (c_first cfg).
+  Notation in_U := (in_U U).
+  Notation Inv := (Inv U r0 cfg).
+  Notation Inv' := (MovingLibInv.Inv U r0 cfg').
+  Notation DbInv := (DbInv U r0).
+
+  Lemma inv_kept s Fin S : Inv s Fin S <-> Inv' s Fin S.
+  Proof. split; intros [A B C D]; constructor; assumption. Qed.
+
+  Record KRel (s1 s2 : fstate) : Prop := mkKRel {
+    kr_lib : libref (db s1) = libref (db s2);
+    kr_extra : extra (db s1) = extra (db s2);
+    kr_last : last_sent s1 = last_sent s2;
+    kr_lls : last_lib_seen s1 = last_lib_seen s2;
+    kr_store : exists full f1 f2,
+        NoDup (keys full) /\ in_U full /\
+        store (db s1) = fil f1 full /\ store (db s2) = fil f2 full /\
+        (forall x, rn (libref (db s1)) <= bnum x -> f1 x = true /\ f2 x = true) /\
+        (last_sent s1 = None -> forall x, f1 x = true /\ f2 x = true)
+  }.
+
+  Lemma krel_sym s1 s2 : KRel s1 s2 -> KRel s2 s1.
+  Proof.
+    intros [A B C D (full & f1 & f2 & H1 & H2 & H3 & H4 & H5 & H6)].
+    constructor; try (symmetry; assumption).
+    exists full, f2, f1. split; [exact H1|]. split; [exact H2|]. split; [exact H4|]. split; [exact H3|].
+    split; [intros x Hx; rewrite <- A in Hx; destruct (H5 x Hx); auto|].
+    intros Hn x. rewrite <- C in Hn. destruct (H6 Hn x). auto.
+  Qed.
+
+  Lemma krel_init m : KRel (fs_init m) (fs_init m).
+  Proof.
+    constructor; try reflexivity. exists (store (db (fs_init m))), (fun _ => true), (fun _ => true).
+    assert (E : store (db (fs_init m)) = []) by (destruct m; reflexivity). rewrite E.
+    split; [constructor|]. split; [intros e []|]. split; [reflexivity|]. split; [reflexivity|]. auto.
+  Qed.
+
+  (* an entry at or above the LIB (or any entry before the first delivery) is in both stores *)
+  Lemma krel_find s1 s2 id e : KRel s1 s2 -> find id (store (db s1)) = Some e ->
+    last_sent s1 = None \/ rn (libref (db s1)) <= bnum (eb e) -> find id (store (db s2)) = Some e.
+  Proof.
+    intros [_ _ _ _ (full & f1 & f2 & Hnd & HU & E1 & E2 & Hab & Hno)] Hf Hc.
+    rewrite E1 in Hf. unfold fil in *. rewrite (find_filter _ _ _ Hnd) in Hf. rewrite E2, (find_filter _ _ _ Hnd).
+    destruct (find id full) as [e0|]; [|discriminate]. destruct (f1 (eb e0)) eqn:F1; [|discriminate].
+    injection Hf as ->. destruct Hc as [Hc|Hc]; [destruct (Hno Hc (eb e)) as [_ ->] | destruct (Hab (eb e) Hc) as [_ ->]]; reflexivity.
+  Qed.
+
+  Lemma krel_find_none s1 s2 b : KRel s1 s2 -> in_U (store (db s2)) -> In b U -> dropped s1 b = false ->
+    find (bid b) (store (db s1)) = None -> find (bid b) (store (db s2)) = None.
+  Proof.
+    intros HK HU2 Hb Hd Hf. destruct (find (bid b) (store (db s2))) as [e|] eqn:F; [|reflexivity]. exfalso.
+    assert (He : eb e = b) by (apply (stored_is_self U U_uniq _ _ _ HU2 Hb F)).
+    pose proof (krel_find s2 s1 _ _ (krel_sym _ _ HK) F) as G.
+    rewrite Hf in G. assert (X : None = Some e); [|discriminate]. apply G.
+    rewrite <- (kr_last _ _ HK), <- (kr_lib _ _ HK), He.
+    unfold dropped in Hd. destruct (last_sent s1); [|left; reflexivity]. right. rewrite andb_true_r in Hd. lia.
+  Qed.
+
+  (* a chain that rests on the LIB is the same in both stores *)
+  Lemma krel_chain s1 s2 x p : KRel s1 s2 -> DbInv (db s1) -> chain (store (db s1)) x (ri (libref (db s1))) p ->
+    chain (store (db s2)) x (ri (libref (db s2))) p.
+  Proof.
+    intros HK Hd Hc. rewrite <- (kr_lib _ _ HK). apply (chain_transfer _ _ _ _ _ Hc).
+    intros id e He Hf. apply (krel_find s1 s2 id e HK Hf). right.
+    pose proof (di_above U r0 U_id U_up _ Hd _ _ Hc e He). lia.
+  Qed.
+
+  (* storing a new block *)
+  Lemma krel_add s1 s2 b : KRel s1 s2 -> In b U -> dropped s1 b = false ->
+    find (bid b) (store (db s1)) = None ->
+    KRel (with_db s1 (new_db (db s1) b)) (with_db s2 (new_db (db s2) b)).
+  Proof.
+    intros [A B C D (full & f1 & f2 & Hnd & HU & E1 & E2 & Hab & Hno)] Hb Hd Hf.
+    assert (Hfb : f1 b = true /\ f2 b = true).
+    { unfold dropped in Hd. destruct (last_sent s1) eqn:L; [|apply (Hno eq_refl)]. rewrite andb_true_r in Hd. apply Hab. lia. }
+    assert (Hnin : ~ In (bid b) (keys full)).
+    { intros Hin. apply find_is_some_in in Hin as [e He].
+      assert (eb e = b) by (apply (stored_is_self U U_uniq _ _ _ HU Hb He)).
+      rewrite E1 in Hf. unfold fil in Hf. rewrite (find_filter _ _ _ Hnd), He, H in Hf. rewrite (proj1 Hfb) in Hf. discriminate. }
+    constructor; cbn [with_db db new_db store extra libref last_sent last_lib_seen]; try assumption.
+    exists (full ++ [mkEntry b false]), f1, f2.
+    split; [rewrite keys_snoc; apply nodup_snoc; assumption|].
+    split; [intros e He; apply in_app_or in He as [He|[<-|[]]]; [apply HU; exact He | exact Hb]|].
+    split; [rewrite E1; symmetry; apply fil_snoc; apply Hfb|].
+    split; [rewrite E2; symmetry; apply fil_snoc; apply Hfb|].
+    split; assumption.
+  Qed.
+
+  (* marking delivered blocks *)
+  Lemma krel_mark s1 s2 t1 t2 segs : KRel s1 s2 ->
+    store (db t1) = mark_all (store (db s1)) segs -> store (db t2) = mark_all (store (db s2)) segs ->
+    extra (db t1) = extra (db s1) -> extra (db t2) = extra (db s2) ->
+    libref (db t1) = libref (db s1) -> libref (db t2) = libref (db s2) ->
+    last_sent t1 = last_sent t2 -> (last_sent s1 = None -> True) ->
+    last_lib_seen t1 = last_lib_seen s1 -> last_lib_seen t2 = last_lib_seen s2 ->
+    (last_sent t1 = None -> last_sent s1 = None) ->
+    KRel t1 t2.
+  Proof.
+    intros [A B C D (full & f1 & f2 & Hnd & HU & E1 & E2 & Hab & Hno)] S1 S2 X1 X2 L1 L2 Ls _ Q1 Q2 Hn.
+    constructor; try congruence.
+    exists (mark_all full segs), f1, f2.
+    split; [rewrite mark_all_keys; exact Hnd|].
+    split.
+    { intros e He. destruct (in_mark_all _ _ _ Hnd He) as (e0 & He0 & ->). rewrite flag_if_eb. apply HU. exact He0. }
+    split; [rewrite S1, E1; apply mark_all_fil; exact Hnd|].
+    split; [rewrite S2, E2; apply mark_all_fil; exact Hnd|].
+    split; [rewrite L1; exact Hab|]. intros H. apply Hno. apply Hn. exact H.
+  Qed.
+
+  (* MoveLIB + PurgeBeforeLIB with two retention settings *)
+  Lemma krel_purge s1 s2 t1 t2 L' k1 k2 : KRel s1 s2 -> rn (libref (db s1)) <= rn L' ->
+    db t1 = purge_before_lib (move_lib (db s1) L') k1 -> db t2 = purge_before_lib (move_lib (db s2) L') k2 ->
+    last_sent t1 = last_sent t2 -> last_sent t1 <> None -> last_lib_seen t1 = last_lib_seen t2 ->
+    KRel t1 t2.
+  Proof.
+    intros [A B C D (full & f1 & f2 & Hnd & HU & E1 & E2 & Hab & Hno)] Hle D1 D2 Ls Lne Lls.
+    constructor; rewrite ?D1, ?D2; cbn [purge_before_lib move_lib libref extra store rn]; try congruence.
+    exists full, (fun x => f1 x && (rn L' - k1 <=? bnum x)), (fun x => f2 x && (rn L' - k2 <=? bnum x)).
+    split; [exact Hnd|]. split; [exact HU|].
+    split; [rewrite E1; apply filter_fil|]. split; [rewrite E2; apply filter_fil|].
+    split.
+    - intros x Hx. destruct (Hab x) as [-> ->]; [lia|]. cbn [andb]. split; apply N.leb_le; lia.
+    - intros H. contradiction.
+  Qed.
+  (* same fork database, other head / lastLIBSeen *)
+  Lemma krel_same_db a1 a2 t1 t2 : KRel a1 a2 -> db t1 = db a1 -> db t2 = db a2 ->
+    last_sent t1 = last_sent t2 -> last_lib_seen t1 = last_lib_seen t2 ->
+    (last_sent t1 = None -> last_sent a1 = None) -> KRel t1 t2.
+  Proof.
+    intros [A B C D (full & f1 & f2 & Hnd & HU & E1 & E2 & Hab & Hno)] D1 D2 Ls Lls Hn.
+    constructor; rewrite ?D1, ?D2; try assumption.
+    exists full, f1, f2. repeat (split; [assumption|]). intros H. apply Hno. apply Hn. exact H.
+  Qed.
+
+  (* stalledInSegment scans heights above the old LIB only *)
+  Lemma stalled_kept s1 s2 blocks b0 rest : KRel s1 s2 -> blocks = b0 :: rest ->
+    rn (libref (db s1)) <= snum b0 ->
+    stalled_in_segment (db s1) blocks = stalled_in_segment (db s2) blocks.
+  Proof.
+    intros [A B C D (full & f1 & f2 & Hnd & HU & E1 & E2 & Hab & Hno)] -> Hlo.
+    unfold stalled_in_segment. rewrite <- A. destruct (ri (libref (db s1)) =? 0); [reflexivity|].
+    f_equal. f_equal. rewrite E1, E2. unfold fil.
+    rewrite !filter_sub; [reflexivity| |].
+    - intros e _ P. apply andb_true_iff in P as [P _]. apply andb_true_iff in P as [_ P]. apply N.leb_le in P.
+      apply (Hab (eb e)). lia.
+    - intros e _ P. apply andb_true_iff in P as [P _]. apply andb_true_iff in P as [_ P]. apply N.leb_le in P.
+      apply (Hab (eb e)). lia.
+  Qed.
+
+  (* "a block carrying the starting LIB's id is stored" does not depend on retention while nothing is final *)
+  Lemma lib_stored_kept s1 s2 S : KRel s1 s2 -> Inv s1 [] S -> Inv s2 [] S -> lib_stored r0 s1 = lib_stored r0 s2.
+  Proof.
+    intros HK HI1 HI2. apply bool_eq_iff. rewrite !lib_stored_in.
+    assert (G : forall a c T, KRel a c -> Inv a [] T -> In (ri r0) (keys (store (db a))) -> In (ri r0) (keys (store (db c)))).
+    { intros a c T HKac HIa Hin. apply find_is_some_in in Hin as [e He]. apply find_is_some_in. exists e.
+      apply (krel_find a c _ _ HKac He). right.
+      pose proof (i_fin_last _ _ _ _ _ _ HIa) as Hl. cbn [rev] in Hl. rewrite Hl.
+      pose proof (find_some _ _ _ He) as [Hein Hk]. unfold key in Hk.
+      rewrite (L_num (eb e) (di_inU U r0 _ (i_db _ _ _ _ _ _ HIa) e Hein) Hk). lia. }
+    split; [apply (G s1 s2 S HK HI1) | apply (G s2 s1 S (krel_sym _ _ HK) HI2)].
+  Qed.
+
+  Lemma junction_kept s1 s2 Fin S undone C : KRel s1 s2 -> Inv s1 Fin S -> Inv s2 Fin S ->
+    junction_of r0 (lib_stored r0 s1) undone (rev (Fin ++ map eb C)) =
+    junction_of r0 (lib_stored r0 s2) undone (rev (Fin ++ map eb C)).
+  Proof.
+    intros HK HI1 HI2. destruct Fin as [|x F].
+    - rewrite (lib_stored_kept s1 s2 S HK HI1 HI2). reflexivity.
+    - unfold junction_of. destruct undone; [reflexivity|].
+      destruct (rev ((x :: F) ++ map eb C)) eqn:E; [|reflexivity].
+      exfalso. apply (f_equal (@rev block)) in E. rewrite rev_involutive in E. discriminate.
+  Qed.
+End Kept.
